@@ -230,4 +230,20 @@ def SafeRun {T : WalT} (e : Ent T) : List (Op T) → Prop
       | .add _ _ _ _ => Absent e
       | _ => True) ∧ SafeRun (step e op).1 rest
 
+/-- Decidable forms of `Absent`, `othersCurrent` and `SafeRun` (the usage assumption as a
+decidable predicate on histories). -/
+def absentB {T : WalT} (e : Ent T) : Bool :=
+  e.kv.snapshot.isNone && e.kv.wals.isEmpty && e.cache.isEmpty
+
+def othersCurrentB {T : WalT} (e : Ent T) (i : Nat) : Bool :=
+  e.cache.all fun p => p.1 == i || (e.kv.getWal p.2.revision).isNone
+
+def safeRunB {T : WalT} (e : Ent T) : List (Op T) → Bool
+  | [] => true
+  | op :: rest =>
+    (match op with
+      | .snap i _ => othersCurrentB e i
+      | .add _ _ _ _ => absentB e
+      | _ => true) && safeRunB (step e op).1 rest
+
 end KM.ES.Wal
